@@ -371,7 +371,7 @@ class C02(Prop):
                   'against serialize(), serialize_with_frame_size_header, the writes of TransportTCP.send_frame and parse_or_ignore, on valid and malformed '
                   'input, with cbitstruct present and blocked. rsocket/frame_builders.py is *translated* (AST -> Gen/Builders.lean, every run): c02_builders_match_source (the hand-written rule build is the meaning of the regenerated '
                   'definitions over the regenerated __init__ defaults), c02_builder_payload_intact (what the application hands to any builder - each payload part None, empty or bytes - is what the peer decodes, on the stream named, '
-                  'never flagged IGNORE/FOLLOWS), c02_payload_builder_flags / _next_on_content / _size, c02_builder_defaults, c02_setup_builder_millis; builder calls are also run against the real functions. Errors.lean models exception_to_error_frame / error_frame_to_exception: c02_error_roundtrip (the exception answered on a stream reaches the requester with the same code and text, on that stream; a non-protocol exception as RuntimeError), c02_error_kinds_kept, c02_error_frame_on_its_stream; run against the real functions on protocol errors of every code and on application exceptions of several shapes.')
+                  'never flagged IGNORE/FOLLOWS), c02_payload_builder_flags / _next_on_content / _size, c02_builder_defaults, c02_setup_builder_millis; builder calls are also run against the real functions. Errors.lean models exception_to_error_frame / error_frame_to_exception: c02_error_roundtrip (the exception answered on a stream reaches the requester with the same code and text, on that stream; a non-protocol exception as RuntimeError), c02_error_kinds_kept, c02_error_frame_on_its_stream; run against the real functions on protocol errors of every code and on application exceptions of several shapes; exception_to_error_frame itself is translated (c02_error_frame_matches_source). c02_decode_control_matches_source (Props/C02Source.lean): the decision frame / ignored / invalid of the decoder model is the control flow of parse_or_ignore as compiled from frame.py on every run (length check, class-table lookup, what the try covers, IGNORE swallowing a failure, is_frame_to_ignore).')
     level_note = ('Trusted: Lean kernel + standard axioms; struct/cbitstruct semantics as transcribed (failing read vs clipping slice); out-of-domain regions '
                   '(signed MIME length >= 128, RESUME longer than its fields, reserved stream-id bit) are only robustness-checked; KEEPALIVE/ERROR/... carry no metadata section.')
     design_ref = '§5 C02'
